@@ -227,8 +227,7 @@ class MVL(MoveInstruction):
         assert isinstance(src, Pointer), f"Expected Pointer, got {type(src)}"
         # 0xCB and 0xCF variants use IMem8, IMem8
         dst_reg = TempReg(TempMvlDst)
-        dst_mode = get_addressing_mode(self._pre, 1)
-        src_mode = get_addressing_mode(self._pre, 2)
+        dst_mode, src_mode = self._addressing_modes()
 
         dst_reg.lift_assign(
             il, dst.lift_current_addr(il, pre=dst_mode, side_effects=False)
